@@ -119,6 +119,10 @@ public:
   void set_error(Error&& error) && noexcept {
     auto* const op = op_;
 
+    // The error may refer to state owned by the completion operation, so
+    // take a copy of it before that operation is destroyed.
+    std::decay_t<Error> errorCopy{static_cast<Error&&>(error)};
+
     using completion_value_op_t =
         connect_result_t<CompletionSender, value_receiver>;
     unifex::deactivate_union_member<completion_value_op_t>(
@@ -128,7 +132,7 @@ public:
     unifex::deactivate_union_member<std::tuple<Values...>>(op->value_);
 
     unifex::set_error(
-        static_cast<Receiver&&>(op->receiver_), static_cast<Error&&>(error));
+        static_cast<Receiver&&>(op->receiver_), std::move(errorCopy));
   }
 
   void set_done() && noexcept {
@@ -307,9 +311,12 @@ public:
       (requires receiver<Receiver, Error>)  //
       void set_error(Error&& error) && noexcept {
     auto* const op = op_;
+    // The error may refer to state owned by the completion operation, so
+    // take a copy of it before that operation is destroyed.
+    std::decay_t<Error> errorCopy{static_cast<Error&&>(error)};
     unifex::deactivate_union_member(op->completionDoneOp_);
     unifex::set_error(
-        static_cast<Receiver&&>(op->receiver_), static_cast<Error&&>(error));
+        static_cast<Receiver&&>(op->receiver_), std::move(errorCopy));
   }
 
   void set_done() && noexcept {
